@@ -112,7 +112,7 @@ func genValue(r *emit.Rng) float64 {
 	case 1:
 		return math.NaN()
 	case 2:
-		return math.Inf(1)
+		return []float64{math.Inf(1), math.Inf(-1), math.MaxFloat64, -math.MaxFloat64}[r.Intn(4)]
 	case 3:
 		return -math.Ldexp(1, r.Intn(12)-4)
 	case 4:
@@ -138,6 +138,9 @@ func genCfg(r *emit.Rng) cfg {
 	}
 	if r.Chance(1, 2) {
 		c.maxZT = math.Ldexp(1, r.Intn(12)-2)
+		if r.Chance(1, 6) {
+			c.maxZT = math.MaxFloat64 // the zero bucket may then grow up to the last regular bucket
+		}
 	}
 	if r.Chance(1, 2) {
 		c.classic = []float64{1, 16, 256}
